@@ -435,3 +435,133 @@ Section Loops.
         cbn [option_map upd_list]. rewrite Ek. repeat split; assumption.
   Qed.
 End Loops.
+
+(* ------------------------------------------------------------------ Part 3: the remove loops: the rules are split
+   into those that stay and those that were removed *)
+Section Removes.
+  Variable burst : N -> N -> N -> N.
+
+  Lemma remove_f_perm : forall ids s del s' del',
+    mod_remove_f ids s del = (s', Some del') -> Permutation (view s ++ del) (view s' ++ del').
+  Proof.
+    induction ids as [|[|id] ids IH]; intros s del s' del' H; cbn [mod_remove_f] in H; try discriminate.
+    - inversion H; subst. reflexivity.
+    - destruct (find_idx (fun x => a_id x =? id) (view s)) as [k|] eqn:Ek; [|discriminate].
+      pose proof (find_idx_lt _ _ _ Ek) as Hk. apply IH in H. rewrite <- H.
+      rewrite view_s_remove by exact Hk. rewrite (remove_at_perm far0 k (view s) Hk) at 1.
+      cbn [app]. rewrite app_assoc. apply Permutation_cons_append.
+  Qed.
+  Lemma remove_q_perm : forall ids s del s' del',
+    mod_remove_q ids s del = (s', Some del') -> Permutation (view s ++ del) (view s' ++ del').
+  Proof.
+    induction ids as [|[|id] ids IH]; intros s del s' del' H; cbn [mod_remove_q] in H; try discriminate.
+    - inversion H; subst. reflexivity.
+    - destruct (find_idx (fun x => q_id x =? id) (view s)) as [k|] eqn:Ek; [|discriminate].
+      pose proof (find_idx_lt _ _ _ Ek) as Hk. apply IH in H. rewrite <- H.
+      rewrite view_s_remove by exact Hk. rewrite (remove_at_perm qer0 k (view s) Hk) at 1.
+      cbn [app]. rewrite app_assoc. apply Permutation_cons_append.
+  Qed.
+  Lemma remove_p_perm : forall ids s g del s' g' del',
+    mod_remove_p ids s g del = (s', g', Some del') -> Permutation (view s ++ del) (view s' ++ del').
+  Proof.
+    induction ids as [|[|id] ids IH]; intros s g del s' g' del' H; cbn [mod_remove_p] in H; try discriminate.
+    - inversion H; subst. reflexivity.
+    - destruct (find_idx (fun x => p_id x =? id) (view s)) as [k|] eqn:Ek; [|discriminate].
+      pose proof (find_idx_lt _ _ _ Ek) as Hk. apply IH in H. rewrite <- H.
+      rewrite view_s_remove by exact Hk. rewrite (remove_at_perm pdr0 k (view s) Hk) at 1.
+      cbn [app]. rewrite app_assoc. apply Permutation_cons_append.
+  Qed.
+End Removes.
+
+(* ------------------------------------------------------------------ Part 4: MarkSessionQer that does not relabel, and
+   the handler on the path where every loop completes and every Remove id resolves *)
+Fixpoint list_eqb {A} (e : A -> A -> bool) (a b : list A) : bool :=
+  match a, b with
+  | [], [] => true
+  | x :: a', y :: b' => e x y && list_eqb e a' b'
+  | _, _ => false
+  end.
+Lemma list_eqb_eq {A} (e : A -> A -> bool) : (forall x y, e x y = true -> x = y) -> forall a b, list_eqb e a b = true -> a = b.
+Proof.
+  intros He. induction a as [|x a IH]; destruct b as [|y b]; cbn; intros H; try discriminate; [reflexivity|].
+  apply andb_true_iff in H. destruct H as [H1 H2]. rewrite (He _ _ H1), (IH _ H2). reflexivity.
+Qed.
+
+(* re-running MarkSessionQer on the lists returns them unchanged (no QER list re-ordered, no level changed) *)
+Definition mark_stable (ps : list pdr) (qs : list qer) : bool :=
+  match mark_session_qer ps qs with
+  | Done (ps', qs') => list_eqb (list_eqb N.eqb) (map p_qers ps') (map p_qers ps) && list_eqb N.eqb (map q_level qs') (map q_level qs)
+  | Crash _ => false
+  end.
+
+Lemma set_qers_same p : set_qers p (p_qers p) = p.
+Proof. destruct p; reflexivity. Qed.
+Lemma map_set_qers_same (g : pdr -> list N) : forall ps, map p_qers (map (fun p => set_qers p (g p)) ps) = map p_qers ps -> map (fun p => set_qers p (g p)) ps = ps.
+Proof.
+  induction ps as [|p ps IH]; intros H; [reflexivity|]. cbn [map] in *. inversion H as [[H1 H2]].
+  rewrite IH by exact H2. f_equal. assert (g p = p_qers p) as -> by (destruct p; exact H1). apply set_qers_same.
+Qed.
+Lemma set_nth_level_same : forall k (qs : list qer) q, nth_error qs k = Some q ->
+  map q_level (set_nth k (set_level q 1) qs) = map q_level qs -> set_nth k (set_level q 1) qs = qs.
+Proof.
+  induction k as [|k IH]; intros qs q Hq H; destruct qs as [|y qs]; try discriminate; cbn in *.
+  - inversion Hq; subst. inversion H as [H1]. f_equal. destruct q; cbn in *. subst. reflexivity.
+  - inversion H as [H1]. f_equal. apply IH; assumption.
+Qed.
+
+Lemma mark_stable_spec ps qs : mark_stable ps qs = true -> mark_session_qer ps qs = Done (ps, qs).
+Proof.
+  unfold mark_stable. intros H.
+  destruct (mark_session_qer ps qs) as [[ps' qs']|] eqn:E; [|discriminate].
+  apply andb_true_iff in H. destruct H as [H1 H2].
+  apply (list_eqb_eq _ (list_eqb_eq N.eqb (fun x y => proj1 (N.eqb_eq x y)))) in H1.
+  apply (list_eqb_eq N.eqb (fun x y => proj1 (N.eqb_eq x y))) in H2.
+  unfold mark_session_qer in E. destruct ps as [|p0 ps0]; [symmetry; exact E|].
+  destruct (nth_error (p0 :: ps0) (length (p0 :: ps0) - 1)) as [lastp|]; [|discriminate].
+  destruct (Nat.ltb (length (p_qers lastp)) 1 || Nat.ltb (length qs) 2); [symmetry; exact E|].
+  destruct (search_list (p0 :: ps0) (p_qers lastp)) as [lst'|]; [|symmetry; exact E].
+  destruct (select_qer qs 0 lst' (0%nat, 0, 0)) as [[sidx sid] sm].
+  destruct (nth_error qs sidx) as [q|] eqn:Eq; [|discriminate].
+  inversion E; subst ps' qs'. f_equal. f_equal.
+  - exact (map_set_qers_same (fun p => move_last sid (p_qers p)) (p0 :: ps0) H1).
+  - apply set_nth_level_same; assumption.
+Qed.
+
+Definition lookup_pdrs (ids : list N) (P : list pdr) : list pdr :=
+  flat_map (fun id => match find_idx (fun x => p_id x =? id) P with Some k => [nth k P pdr0] | None => [] end) ids.
+
+Section Late.
+  Variable burst : N -> N -> N -> N.
+
+  Definition new_rseid (cpf : option (acc (N * option N))) (s0 : session) : N :=
+    match cpf with Some (IOk (r, _)) => r | _ => s_rseid s0 end.
+
+  Lemma handle_mod_late a c seid cpf cp cf cq up uf uq rp rf rq s0 w1 w2 w3 w4 w5 w6 wp3 g3 dp wf3 df wq3 dq :
+    find_session seid (c_sessions c) = Some s0 ->
+    mod_create_p cp seid (c_pfds c) (Work (s_pdrs s0) (s_fars s0) (s_qers s0) (a_pool a) [] [] [] []) = (w1, true) ->
+    mod_create_f cf seid (g_access (a_cfg a)) (g_core (a_cfg a)) w1 = (w2, true) ->
+    mod_create_q cq seid w2 = (w3, true) ->
+    mod_update_p up seid (c_pfds c) w3 = (w4, true) ->
+    mod_update_f uf seid (g_access (a_cfg a)) (g_core (a_cfg a)) w4 = (w5, true) ->
+    mod_update_q uq seid w5 = (w6, true) ->
+    mark_stable (view (w_p w6)) (view (w_q w6)) = true ->
+    mark_stable (view (w_p w6)) (w_addq w6) = true ->
+    mod_remove_p rp (w_p w6) (a_teids a) [] = (wp3, g3, Some dp) ->
+    mod_remove_f rf (w_f w6) [] = (wf3, Some df) ->
+    mod_remove_q rq (w_q w6) [] = (wq3, Some dq) ->
+    let cmds1 := add_cmds burst (lookup_pdrs (w_addp w6) (view (w_p w6))) (w_addf w6) (w_addq w6) in
+    let cmds2 := del_cmds dp df dq in
+    handle_mod burst a c seid cpf cp cf cq up uf uq rp rf rq =
+    Done (Agent (a_cfg a) (w_pool w6) g3 (a_gauge a) (apply_cmds cmds2 (apply_cmds cmds1 (a_tables a))),
+          Conn (c_remote c) (c_pfds c) (replace_session (Sess (s_lseid s0) (new_rseid cpf s0) wp3 wf3 wq3) (c_sessions c)) (c_seq c),
+          Out (Some (RMod (new_rseid cpf s0) CAUSE_OK)) (cmds1 ++ cmds2) (if g_end_marker (a_cfg a) then w_marks w6 else []) false).
+  Proof.
+    intros Hf H1 H2 H3 H4 H5 H6 M1 M2 R1 R2 R3. cbv zeta. unfold handle_mod. cbv zeta.
+    rewrite Hf. rewrite H1. cbv beta iota. rewrite H2. cbv beta iota. rewrite H3. cbv beta iota.
+    rewrite H4. cbv beta iota. rewrite H5. cbv beta iota. rewrite H6. cbv beta iota.
+    rewrite (mark_stable_spec _ _ M1). cbv beta iota. rewrite write_back_view, write_back_q_view.
+    rewrite (mark_stable_spec _ _ M2). cbv beta iota. rewrite write_back_view.
+    rewrite R1. cbv beta iota. rewrite R2. cbv beta iota. rewrite R3. cbv beta iota.
+    reflexivity.
+  Qed.
+End Late.
